@@ -1981,7 +1981,7 @@ lydjson_envelope(struct lyjson_ctx *jsonctx, const char *name, const char *modul
         LOGVAL(jsonctx->ctx, LYVE_DATA, "Unexpected metadata.");
         rc = LY_EVALID;
         goto cleanup;
-    } else if (module && ly_strncmp(module, prefix, prefix_len)) {
+    } else if (module && (!prefix || ly_strncmp(module, prefix, prefix_len))) {
         LOGVAL(jsonctx->ctx, LYVE_DATA, "Unexpected module \"%.*s\" instead of \"%s\".", (int)prefix_len, prefix, module);
         rc = LY_EVALID;
         goto cleanup;
